@@ -17,7 +17,7 @@ class TarSuite(Suite):
 
     def gen(self, rng, tier):
         from . import filt
-        n = {"quick": 900, "thorough": 8000, "search": 150}[tier]
+        n = {"quick": 2000, "thorough": 8000, "search": 150}[tier]
         ops = []
         for _ in range(n):
             tree = gen.disk_tree(rng, rng.choice([6, 15, 35]), 4, types=("dir", "file", "symlink", "fifo", "chr", "blk", "hardlink"),
@@ -42,7 +42,7 @@ class TarSuite(Suite):
                 # two filters stacked: the inner one (no patterns) stats every entry, the outer one hides the FIRST name of a hard-link
                 # group: the next name becomes the file of the archive and must carry the bytes
                 op["sfilter"] = {}
-                op["sfilter2"] = {"exclude": [rng.choice(hl)["ln"]]}
+                op["sfilter2"] = {"exclude": [(lambda c: hx(b"".join(b"\\" + bytes([x]) if x in b"*?[]\\" else bytes([x]) for x in bytes.fromhex(c))))(rng.choice(hl)["ln"])]}
                 if rng.random() < 0.7:
                     op["src"]["kind"] = "disk"      # (the stats of an on-disk view come from the library's own lstat code)
             ops.append(op)
